@@ -14,6 +14,7 @@ tvars == <<l, scen, prod, taken, deliv, live, sig, wait, viol>>
 
 E == Rec[l]
 Flag(code) == Report(scen, code, l) /\ viol' = viol \cup {code}
+Flag2(c1, c2) == Report(scen, c1, l) /\ Report(scen, c2, l) /\ viol' = viol \cup {c1, c2}
 NoFlag == UNCHANGED viol
 
 TInit == l = 1 /\ scen = 0 /\ prod = EmptyMap /\ taken = EmptyMap /\ deliv = EmptyMap
@@ -63,7 +64,7 @@ TRet == Step("ret") /\ UNCHANGED <<scen, prod, taken, live, sig>> /\
 
 \* at rest, after the sources delivered every wake-up they owed
 TIdle == Step("idle") /\ UNCHANGED <<scen, prod, taken, deliv, live, sig, wait>> /\
-   IF E.parked /\ ~E.woken /\ \E k \in live : Readable(k) THEN Flag("C06/fq-parked-with-message-available")
+   IF E.parked /\ ~E.woken /\ \E k \in live : Readable(k) THEN Flag2("C06/fq-parked-with-message-available", "C05/fq-message-never-delivered")
    ELSE IF ~E.parked /\ \E k \in live : Readable(k) THEN NoFlag   \* receiver simply stopped polling (script end)
    ELSE NoFlag
 
